@@ -47,7 +47,8 @@ def ack_late(ctx):
                 if not is_awaited(a, bb):
                     why = "the reply future is never awaited"
                     continue
-                extra = conditions_within(dominating_conditions(a, bb, R), [(cond_is_insert_result("requesters"), True), (desc_is_field_read("executed"), True), (cond_is_empty("unavailable_dependencies"), True)])
+                extra = decisions_to(a, R, bb, [(cond_is_insert_result("requesters"), True), (desc_is_field_read("executed"), True), (cond_is_empty("unavailable_dependencies"), True),
+                                                 (cond_len_eq_one("requesters"), None)])
                 if extra:
                     why = "the reply depends on a further condition: " + fmt_conds(extra)
                     continue
@@ -396,7 +397,7 @@ def _collect_tests(d, out):
         out.add(("field", d[1]))
 
 
-@rule("C04.REQUEST-DEPS", ["C04"], """the handler of a request for an executed kind requests the actor's dependencies for both kinds (build/service actors) or for
+@rule("C04.REQUEST-DEPS", ["C04", "C17", "C20"], """the handler of a request for an executed kind requests the actor's dependencies for both kinds (build/service actors) or for
       the incoming kind (aggregate) when the first requester registers; engine::run requests every root for both kinds before relaying""", "K1", floor=4)
 def request_deps(ctx):
     r = ctx.r
@@ -414,15 +415,16 @@ def request_deps(ctx):
             calls = calls_to_role(r, a, req_fns, R)
             got = set()
             for bb, t in calls:
-                extra = conditions_within(dominating_conditions(a, bb, R), [(cond_is_insert_result("requesters"), True), (cond_len_eq_one("requesters"), True)])
+                extra = decisions_to(a, R, bb, [(cond_is_insert_result("requesters"), True), (cond_len_eq_one("requesters"), True)])
                 if extra:
-                    ctx.bad(f"{lab}/Requested.{k}/guard@{bb}", [site(a, bb)], "the dependencies are requested only under a further condition (" + fmt_conds(extra) + "): with it false they are never requested and the target waits forever")
+                    ctx.bad(f"{lab}/Requested.{k}/guard@{bb}", [site(a, bb)], "the dependencies are requested only under a further condition (" + fmt_conds(extra) + "): with it false they are never requested (or requested later, behind targets they do not depend on) and the target waits",
+                            props=["C04", "C17"] + (["C20"] if not kinds else []))
                     continue
                 if is_awaited(a, bb):
                     got |= kind_of_operand(a, t["args"][1]) if len(t["args"]) > 1 else set()
             if kinds:
                 ctx.check({"Build", "Service"} <= got, f"{lab}/Requested.{k}", [site(a, c[0]) for c in calls] or [a.loc(min(R))],
-                          f"the dependencies are requested for {sorted(got)} only: a dependency of the missing kind never starts and the target waits forever")
+                          f"the dependencies are requested for {sorted(got)} only: a dependency of the missing kind never starts and the target waits forever", props=["C04"])
             else:
                 ctx.check("msg" in got, f"{lab}/Requested.{k}", [site(a, c[0]) for c in calls] or [a.loc(min(R))],
                           f"the aggregate does not request its dependencies with the incoming kind (got {sorted(got)})", props=["C04", "C20"])
@@ -439,7 +441,7 @@ def request_deps(ctx):
         kat = b.prov.operand_atoms(agg_field_op(st, "kind"))
         kinds = atom_aggs(kat, "ExecutionKind")
         ctx.check({"Build", "Service"} <= kinds, f"root-request/{short(b.name)}", [site(b, bb)],
-                  f"root targets are requested for {sorted(kinds)} only")
+                  f"root targets are requested for {sorted(kinds)} only", props=["C04"])
 
 
 @rule("C04.START-LIVE", ["C04", "C06"], """a start site runs whenever the readiness predicate holds (and no build is in flight): no further condition guards it, otherwise a ready
@@ -466,8 +468,8 @@ def success_sets_executed(ctx):
     setters = []
     for (wb, bb, st) in r.field_writes("executed"):
         kind, v = r.written_value(wb, st, "executed")
-        isconst = (kind == "op" and v["k"] == "const") or (kind == "rv" and v["k"] == "use" and v["op"]["k"] == "const")
-        if not isconst and wb in r.helper_methods() and wb not in setters:
+        isfalse = (kind == "op" and is_const(v, "false")) or (kind == "rv" and v["k"] == "use" and is_const(v["op"], "false"))
+        if not isfalse and wb in r.helper_methods() and wb not in setters:
             setters.append(wb)
     ctx.need(setters, "helper method recording `executed`")
     for a in r.actors():
